@@ -54,16 +54,24 @@ def typeorder(t1, t2):
     if t1 == t2:
         return Order.SAME
 
-    if (
-        hasattr(t1, "__type_order__")
-        and (result := t1.__type_order__(t2)) is not NotImplemented
-    ):
-        return result
-    elif (
-        hasattr(t2, "__type_order__")
-        and (result := t2.__type_order__(t1)) is not NotImplemented
-    ):
-        return result.opposite()
+    result1 = result2 = NotImplemented
+    if hasattr(t1, "__type_order__"):
+        result1 = t1.__type_order__(t2)
+    if hasattr(t2, "__type_order__"):
+        result2 = t2.__type_order__(t1)
+        if result2 is not NotImplemented:
+            result2 = result2.opposite()
+
+    if result1 is not NotImplemented and result2 is not NotImplemented:
+        # Both types have an opinion. If they disagree (e.g. two unions that
+        # overlap, each "more general" than a member of the other), the types
+        # are not comparable. This keeps typeorder(t1, t2) the mirror image
+        # of typeorder(t2, t1), which sort_types relies on.
+        return result1 if result1 is result2 else Order.NONE
+    elif result1 is not NotImplemented:
+        return result1
+    elif result2 is not NotImplemented:
+        return result2
 
     o1 = get_origin(t1)
     o2 = get_origin(t2)
